@@ -124,8 +124,26 @@ def maxInt : Int := 9223372036854775807
 /-- Two's-complement wrap-around of a 64-bit `int` product/sum. -/
 def wrap64 (x : Int) : Int := (x + 9223372036854775808) % 18446744073709551616 - 9223372036854775808
 
+/-- `math.MaxInt32`: the cap of `str:repeat` (fixes/C41-repeat-size-cap.patch) -/
+def maxRepeatLen : Int := 2147483647
+
 /-- `strings.Repeat(s, count)` of go1.23: panics on a negative count and on an
-overflowing result length. -/
+overflowing result length; then `strings.Builder.Grow(len(s)*count)` allocates the
+result, and the runtime's `makeslice` panics (`len out of range`) when the length
+exceeds the platform's allocation limit `maxAlloc` (2^48 on linux/amd64, 2^33 on
+ios/arm64, …; a parameter).  An allocation below the limit that the machine cannot
+satisfy ends the process (`fatal error: out of memory`) — not a Go panic, not
+modelled: no Go program can react to it. -/
+def stringsRepeatA (maxAlloc : Int) (s : Bytes) (count : Int) : Res Bytes :=
+  if count = 0 then .ok []
+  else if count = 1 then .ok s
+  else if count < 0 then .panic "strings: negative Repeat count"
+  else if (s.length : Int) > maxInt / count then .panic "strings: Repeat output length overflow"
+  else if s.isEmpty then .ok []
+  else if (s.length : Int) * count > maxAlloc then .panic "makeslice: len out of range"
+  else .ok (List.replicate count.toNat s).flatten
+
+/-- `strings.Repeat` on a machine without an allocation limit (what round 1 modelled) -/
 def stringsRepeat (s : Bytes) (count : Int) : Res Bytes :=
   if count = 0 then .ok []
   else if count = 1 then .ok s
